@@ -376,6 +376,43 @@ func propC01(c *Ctx) {
 		}
 	})
 
+	c.Rule("C01.R6", func() {
+		hs := c.Handlers("ophost")
+		for _, hn := range sortedKeys(hs) {
+			errorDiscipline(c, "C01.R6", "ophost."+hn, hs[hn], PO{Params: hParams, Visits: 3})
+		}
+	})
+
+	c.Rule("C01.R7", func() {
+		fw := hostHandler(c, "FinalizeTokenWithdrawal")
+		o := c.Ob("C01.R7", "FinalizeTokenWithdrawal: exactly one finalize_token_withdrawal event on success with request provenance")
+		for _, p := range c.Paths(fw, hostPO) {
+			o.Paths++
+			if !p.OK() || p.Panic {
+				continue
+			}
+			idx, views, und := emitted(p)
+			if len(und) > 0 || len(idx) != 1 || views[0].Type != "finalize_token_withdrawal" {
+				o.Fail(c.W.Pos(fw.Pos()), fmt.Sprintf("success emits %d decodable events", len(idx)), c.Dump(p, -1))
+				continue
+			}
+			o.Sites++
+			checkEvent(c, o, p, idx[0], views[0], map[string]string{
+				"bridge_id":    "strconv.FormatUint(req.BridgeId, 10)",
+				"output_index": "strconv.FormatUint(req.OutputIndex, 10)",
+				"l2_sequence":  "strconv.FormatUint(req.Sequence, 10)",
+				"from":         "req.From",
+				"to":           "req.To",
+				"l1_denom":     "req.Amount.Denom",
+				"l2_denom":     "ophost/types.L2Denom(req.BridgeId, req.Amount.Denom)",
+				"amount":       "(sdkmath.Int).String(req.Amount.Amount)",
+			})
+		}
+		if o.Sites == 0 {
+			o.Fail(c.W.Pos(fw.Pos()), "no success path", nil)
+		}
+	})
+
 	c.Rule("C01.R5", func() {
 		o := c.Ob("C01.R5", "ophost account creation (NewAccount/SetAccount) only in CreateBridge, for BridgeAddress(new id)")
 		for _, s := range eff.Where(func(s *Site) bool {
@@ -528,6 +565,45 @@ func propC10(c *Ctx) {
 			if fnShort(f) != "(ophost/keeper.Keeper).InitGenesis" {
 				o3.Fail(c.W.Pos(f.Pos()), "called from "+fnShort(f), nil)
 			}
+		}
+	})
+
+	c.Rule("C10.R5", func() {
+		h := c.Method(hostKeeper, "Keeper", "IncreaseNextBridgeId")
+		def := c.constVal(hostTypes, "DefaultBridgeIdStart")
+		o := c.Ob("C10.R5", "IncreaseNextBridgeId: returns the pre-increment id; the first bridge gets DefaultBridgeIdStart and default+1 is stored")
+		for _, p := range c.Paths(h, PO{Params: []string{"k", "ctx"}}) {
+			o.Paths++
+			o.Facts += p.NFacts()
+			if !p.OK() || p.Panic {
+				continue
+			}
+			o.Sites++
+			nx := collEvents(p, len(p.Events), "NextBridgeId", "Next")
+			sets := collEvents(p, len(p.Events), "NextBridgeId", "Set")
+			if len(nx) != 1 {
+				o.Fail(c.W.Pos(h.Pos()), "success without exactly one Sequence.Next", c.Dump(p, -1))
+				continue
+			}
+			nv := p.Events[nx[0]].Call.String() + ".0"
+			isDef := p.HasFact(len(p.Events), func(a *Term, pol bool) bool { return pol && eqAtomS(a, nv, "0") })
+			notDef := p.HasFact(len(p.Events), func(a *Term, pol bool) bool { return !pol && eqAtomS(a, nv, "0") })
+			r := p.Ret[0]
+			switch {
+			case isDef:
+				if r.Key() != def || len(sets) != 1 || p.Events[sets[0]].Call.Args[2].Key() != binopPlus1(r) {
+					o.Fail(c.W.Pos(h.Pos()), "first use must return "+def+" and store "+def+"+1", c.Dump(p, -1))
+				}
+			case notDef:
+				if r.String() != nv || len(sets) != 0 {
+					o.Fail(c.W.Pos(h.Pos()), "must return the value Sequence.Next produced", c.Dump(p, -1))
+				}
+			default:
+				o.Fail(c.W.Pos(h.Pos()), "a fresh counter (collections default 0) is not distinguished: the first bridge would get id 0", c.Dump(p, -1))
+			}
+		}
+		if o.Sites == 0 {
+			o.Fail(c.W.Pos(h.Pos()), "no success path", nil)
 		}
 	})
 
@@ -780,6 +856,41 @@ func propC11(c *Ctx) {
 		}
 	})
 
+	c.Rule("C11.R5", func() {
+		type evt struct {
+			handler, typ string
+			want         map[string]string
+		}
+		for _, e := range []evt{
+			{"ProposeOutput", "propose_output", map[string]string{"proposer": "req.Proposer", "bridge_id": "strconv.FormatUint(req.BridgeId, 10)", "l2_block_number": "strconv.FormatUint(req.L2BlockNumber, 10)", "output_root": "encoding/hex.EncodeToString(req.OutputRoot)"}},
+			{"DeleteOutput", "delete_output", map[string]string{"challenger": "req.Challenger", "bridge_id": "strconv.FormatUint(req.BridgeId, 10)", "output_index": "strconv.FormatUint(req.OutputIndex, 10)"}},
+		} {
+			fn := hostHandler(c, e.handler)
+			o := c.Ob("C11.R5", e.handler+": exactly one "+e.typ+" event on success with request provenance")
+			for _, p := range c.Paths(fn, PO{Params: hParams, NoInline: []string{".Validate"}, Visits: 3}) {
+				o.Paths++
+				if !p.OK() || p.Panic {
+					continue
+				}
+				idx, views, und := emitted(p)
+				if len(und) > 0 || len(idx) != 1 || views[0].Type != e.typ {
+					o.Fail(c.W.Pos(fn.Pos()), fmt.Sprintf("success emits %d decodable events", len(idx)), c.Dump(p, -1))
+					continue
+				}
+				o.Sites++
+				checkEvent(c, o, p, idx[0], views[0], e.want)
+				if e.handler == "ProposeOutput" {
+					if got := strip(views[0].Attrs["output_index"]); got == nil || !isNextOutputIndexKey(got.Key()) {
+						o.Fail(c.evPos(&p.Events[idx[0]]), "output_index attribute is not the allocated index", c.Dump(p, -1))
+					}
+				}
+			}
+			if o.Sites == 0 {
+				o.Fail(c.W.Pos(fn.Pos()), "no success path", nil)
+			}
+		}
+	})
+
 	c.Rule("C11.R3", func() {
 		c.writersTable("C11.R3", "ophost/keeper.Keeper", "NextOutputIndexes", setOf("Set", "Remove", "Clear"),
 			[]string{"(ophost/keeper.Keeper).IncreaseNextOutputIndex", "(ophost/keeper.MsgServer).DeleteOutput", "(ophost/keeper.Keeper).SetNextOutputIndex"})
@@ -823,3 +934,7 @@ func propC11(c *Ctx) {
 }
 
 var _ *ssa.Function
+
+func isNextOutputIndexKey(k string) bool {
+	return k == "strconv.FormatUint(1, 10)" || k == "strconv.FormatUint((collections.Map[K, V]).Get(ms.Keeper.NextOutputIndexes, ctx, req.BridgeId).0, 10)"
+}
